@@ -41,6 +41,7 @@ type vModel struct {
 	urlTag          int // grouped only: 0 none, 1 URL-level Tags @t1, 2 @t2
 	grouped         bool // both interactions under one URL directive (same path)
 	blockAnn        bool // annotations written as /* */
+	layout          int  // 0 as rendered; 1 CRLF; 2 CR; 3 comments and blank lines before top-level directives; 4 definitions in an INCLUDEd file; 5 interactions in a MACRO pasted at root; 6 quoted paths
 	ints            []vMInteraction
 }
 
@@ -78,6 +79,7 @@ var vFeatGroups = [][]string{
 	{"nresp1", "swap1", "body1a", "hdr1a", "rann1a", "body1b", "hdr1b", "request1", "descr1"},
 	{"rpc", "tag", "tag2", "useTag0", "grouped", "urlTag", "path0", "path1", "blockAnn"},
 	{"method0", "path0", "query0", "explicit0", "request0", "enum", "enum2"},
+	{"layout", "grouped", "explicit0", "blockAnn", "typ", "enum", "rpc", "descr0", "tag2"},
 }
 
 func vFeatSymbolic(name string, i uint) bool {
@@ -168,7 +170,96 @@ func vModelSymbolic(n int) vModel {
 			}
 		}
 	}
+	m.layout = vFeatInt("layout", 0, 6)
 	return m
+}
+
+// vApplyLayout rewrites the rendered document in one of the ways the language defines as
+// meaning-preserving (C02 quantifies over renderings); files = INCLUDEd files.
+func vApplyLayout(doc string, layout int) (string, map[string]string) {
+	lines := strings.SplitAfter(doc, "\n")
+	top := func(l string) bool { return len(l) > 0 && l[0] >= 'A' && l[0] <= 'Z' }
+	isDef := func(l string) bool {
+		return strings.HasPrefix(l, "SERVER ") || strings.HasPrefix(l, "TAG ") || strings.HasPrefix(l, "TYPE ") || strings.HasPrefix(l, "ENUM ")
+	}
+	// [d0,d1): the block of definitions; [d1,len): JSON-RPC and HTTP interactions
+	d0, d1 := -1, len(lines)
+	for i, l := range lines {
+		if !top(l) {
+			continue
+		}
+		if isDef(l) {
+			if d0 < 0 {
+				d0 = i
+			}
+		} else if d0 >= 0 && d1 == len(lines) {
+			d1 = i
+		}
+	}
+	if d0 < 0 {
+		// no definitions: the interactions start at the first top-level line after JSIGHT / INFO
+		for i, l := range lines {
+			if top(l) && !strings.HasPrefix(l, "JSIGHT") && !strings.HasPrefix(l, "INFO") {
+				d1 = i
+				break
+			}
+		}
+		d0 = d1
+	}
+	switch layout {
+	case 1:
+		return strings.ReplaceAll(doc, "\n", "\r\n"), nil
+	case 2:
+		return strings.ReplaceAll(doc, "\n", "\r"), nil
+	case 3:
+		var sb strings.Builder
+		// only after a directive line: after a Description text a comment is text, after a schema
+		// body it is a comment of the schema language (part of the body text)
+		kws := []string{"GET", "POST", "PUT", "PATCH", "DELETE", "URL", "200", "404", "Tags", "OperationId", "Request", "Body", "TAG", "SERVER",
+			"BaseUrl", "Title", "Version", "INFO", "Protocol", "Method", ")", "PASTE", "JSIGHT"}
+		directiveLine := func(l string) bool {
+			t := strings.TrimLeft(l, " ")
+			for _, k := range kws {
+				if strings.HasPrefix(t, k+" ") || strings.HasPrefix(t, k+"\n") {
+					return true
+				}
+			}
+			return false
+		}
+		for i, l := range lines {
+			if i > 0 && top(l) && directiveLine(lines[i-1]) {
+				sb.WriteString("\n# about the next one ## really\n \t\n### block {\nstill ( ###\n")
+			}
+			sb.WriteString(l)
+		}
+		return sb.String(), nil
+	case 4:
+		if d0 == d1 {
+			return doc, nil
+		}
+		return strings.Join(lines[:d0], "") + "INCLUDE defs/defs.jst\n" + strings.Join(lines[d1:], ""),
+			map[string]string{"defs/defs.jst": strings.Join(lines[d0:d1], "")}
+	case 5:
+		if d1 == len(lines) {
+			return doc, nil
+		}
+		return strings.Join(lines[:d1], "") + "MACRO @all\n(\n" + vIndent(strings.Join(lines[d1:], ""), 2) + ")\nPASTE @all\n", nil
+	case 6:
+		var sb strings.Builder
+		for _, l := range lines {
+			t := strings.TrimLeft(l, " ")
+			for _, kw := range []string{"URL ", "GET ", "POST ", "PUT ", "PATCH ", "DELETE "} {
+				if strings.HasPrefix(t, kw) && strings.HasPrefix(t[len(kw):], "/") {
+					rest := t[len(kw):]
+					e := strings.IndexAny(rest, " \n")
+					l = l[:len(l)-len(t)] + kw + "\"" + rest[:e] + "\"" + rest[e:]
+				}
+			}
+			sb.WriteString(l)
+		}
+		return sb.String(), nil
+	}
+	return doc, nil
 }
 
 func (m vModel) annotation(text string) string {
@@ -579,8 +670,8 @@ func vExpectedDeep(m vModel) []string {
 // HModel (C02): abstract model (symbolic features) -> rendered document -> build -> the catalog says exactly the model.
 func HModel() {
 	m := vModelSymbolic(vParam("n", 1))
-	doc := vRender(m)
-	c, je := vBuildText(doc)
+	doc, files := vApplyLayout(vRender(m), m.layout)
+	c, je := vBuildProject(doc, files)
 	if vParam("debug", 0) == 1 && je != nil {
 		vObserve("doc", doc, int(je.Index), je.Msg)
 	}
